@@ -265,6 +265,10 @@ func genReqFields(t *tape.Tape, rich bool, forceUpgradeFree bool) []h1.Field {
 	if t.Chance(1, 8) {
 		add("X-Forwarded-Url", "http://client-said.example/u")
 	}
+	if t.Chance(1, 8) {
+		// what a TLS-terminating front end adds; it says nothing about where this request has to go
+		add("X-Forwarded-Proto", []string{"https", "http", "HTTPS", "wss"}[t.Intn(4)])
+	}
 	return fs
 }
 
